@@ -855,9 +855,12 @@ std::vector<Program> makeTemplates(const std::string & prop)
 			add(2, { thread({ mk(C_EMPTYQ) }), thread({ c, c }) });
 			add(1, { thread({ mk(C_WAITFOR_DRAIN, 0, 1) }), thread({ c }) });
 		}
-		add(2, { thread({ mk(C_WAITFOR_DRAIN, 0, 1) }), thread({ mk(C_PROCESSUNTIL, 0, 0) }) });
-		add(2, { thread({ mk(C_WAITFOR_DRAIN, 0, 1) }), thread({ mk(C_PROCESSIF, 1, 0) }) });
-		add(2, { thread({ mk(C_WAITFOR_DRAIN, 0, 1) }), thread({ mk(C_PROCESSUNTIL, 2, 0) }), thread({ enq0 }) });
+		// waitFor(0) (b % 3 == 0) evaluates its predicate once, under the queue mutex: an observation at one instant
+		add(2, { thread({ mk(C_WAITFOR_DRAIN, 0, 0) }), thread({ mk(C_PROCESSUNTIL, 0, 0) }) });
+		add(2, { thread({ mk(C_WAITFOR_DRAIN, 0, 0) }), thread({ mk(C_PROCESSIF, 1, 0) }) });
+		add(2, { thread({ mk(C_WAITFOR_DRAIN, 0, 0) }), thread({ mk(C_PROCESSUNTIL, 2, 0) }), thread({ enq0 }) });
+		add(1, { thread({ mk(C_WAITFOR_DRAIN, 0, 0) }), thread({ mk(C_PROCESS) }) });
+		add(1, { thread({ mk(C_WAITFOR_DRAIN, 0, 0) }), thread({ mk(C_PROCESSONE) }) });
 		for(int i = 0; i < 2; ++i) for(int j = i; j < 2; ++j) {
 			add(2, { thread({ mk(C_EMPTYQ) }), thread({ cons[i] }), thread({ cons[j] }) });
 			add(1, { thread({ mk(C_EMPTYQ) }), thread({ cons[i] }), thread({ enq0, cons[j] }) });
